@@ -19,9 +19,11 @@ def grouplookup_copies_when_shared : Bool := true
 def grouplookup_rewrites_id : Bool := true
 def queryer_newchain_calls : Nat := 1
 def queryer_putchain_calls : Nat := 1
+def reader_sender_slot_past_workers : Bool := true
 def rw_fields : List String := ["Transport", "msg", "wire", "size", "rcode", "proto", "remoteip", "internal", "directPack"]
 def rw_reset_sets : List String := ["Transport", "directPack", "internal", "msg", "proto", "rcode", "remoteip", "size", "wire"]
 def rw_unreset : List Nat := []
+def senders_sized_workers_plus_readers : Bool := true
 def servemsgby_newchain_calls : Nat := 1
 def servemsgby_putchain_calls : Nat := 1
 def size_tcp_buf : Nat := 65535
